@@ -37,6 +37,10 @@ protected:
 
     TbfGroupKernelInterface<SpaceIndexType> kernelWrapper;
     std::vector<KernelClass> kernels;
+    // copy of the kernel as it was given at construction, never used for a computation: the kernels
+    // added when the number of threads grows between two executions must not inherit the state
+    // (e.g. interaction counters) that kernels[0] has accumulated in the meantime
+    std::vector<KernelClass> kernelPrototype;
 
     TbfAlgorithmUtils::TbfOperationsPriorities priorities;
 
@@ -303,7 +307,7 @@ protected:
 
     void increaseNumberOfKernels(){
         for(long int idxThread = kernels.size() ; idxThread < omp_get_max_threads() ; ++idxThread){
-            kernels.emplace_back(kernels[0]);
+            kernels.emplace_back(kernelPrototype[0]);
         }
     }
 
@@ -313,6 +317,7 @@ public:
           kernelWrapper(configuration),
           priorities(configuration.getTreeHeight()){
         kernels.emplace_back(configuration);
+        kernelPrototype.emplace_back(kernels[0]);
         increaseNumberOfKernels();
     }
 
@@ -324,6 +329,7 @@ public:
           kernelWrapper(configuration),
           priorities(configuration.getTreeHeight()){
         kernels.emplace_back(std::forward<SourceKernelClass>(inKernel));
+        kernelPrototype.emplace_back(kernels[0]);
         increaseNumberOfKernels();
     }
 
